@@ -4,14 +4,33 @@ replayable, and mutable by libFuzzer through `fuzz_one_input`)."""
 from hypothesis import strategies as st
 
 
+# Hypothesis' bounded integer draws are strongly skewed towards small values (measured: 50 % of
+# st.integers(0, 999) draws fall below 300).  Generators that take probabilities literally would
+# starve their rarer classes, so small-range decisions go through a monotone correction with the
+# measured cumulative distribution: shrinking still moves every decision towards its first option.
+_CDF = [0.0, 0.188, 0.343, 0.500, 0.620, 0.708, 0.782, 0.842, 0.896, 0.938, 1.0]
+
+
+def _correct(k, n=1000):
+    x = k / n * 10.0
+    i = min(int(x), 9)
+    return _CDF[i] + (_CDF[i + 1] - _CDF[i]) * (x - i)
+
+
 class Draw:
     def __init__(self, data):
         self.d = data
 
+    def _u(self):
+        """approximately uniform in [0, 1), monotone in the underlying draw"""
+        return min(_correct(self.d.draw(st.integers(0, 999))), 0.999999)
+
     def randint(self, a, b):
         if a >= b:
             return a
-        return self.d.draw(st.integers(a, b))
+        if b - a >= 400:
+            return self.d.draw(st.integers(a, b))
+        return a + int(self._u() * (b - a + 1))
 
     def randrange(self, n):
         return self.randint(0, n - 1)
@@ -21,11 +40,11 @@ class Draw:
         return seq[self.randint(0, len(seq) - 1)]
 
     def random(self):
-        return self.randint(0, 999) / 1000.0
+        return self._u()
 
     def chance(self, p):
         """True with probability ~p (shrinks towards False)."""
-        return self.randint(0, 999) >= 1000 - int(round(p * 1000))
+        return self._u() >= 1.0 - p
 
     def shuffle(self, lst):
         for i in range(len(lst) - 1, 0, -1):
